@@ -73,7 +73,13 @@ func record(c *mon.Case, p *refinterp.Program, v refinterp.Verdict, phase string
 				c.Count("p_"+k, 1)
 			}
 		}
-		if nontrivial(v.Model.Kinds) {
+		// boundary shapes of the inputs the stream/container builtins received
+		for k, n := range v.Model.Kinds {
+			if strings.HasPrefix(k, "shape:") || strings.HasPrefix(k, "stream:") || strings.HasPrefix(k, "count-arg:") || strings.HasPrefix(k, "mapshape:") {
+				c.Count(k, n)
+			}
+		}
+		if nontrivial(v.Model.Kinds) || phase == "streams" && len(v.Model.Values) > 0 {
 			c.Nontrivial(hashStr(p.Source()))
 		}
 		c.Sample(phase, map[string]any{"source": p.Source(), "values": v.Model.Values, "bytes": v.Model.Bytes, "exception": v.Model.Exc})
@@ -96,6 +102,12 @@ func record(c *mon.Case, p *refinterp.Program, v refinterp.Verdict, phase string
 	case "timeout":
 		c.Inconclusive("elvish-timeout")
 	}
+}
+
+// runStreams: value-stream and container builtins on boundary-shaped inputs.
+func runStreams(c *mon.Case) {
+	p := refinterp.NewGen(c.Rand, refinterp.GenConfig{}).StreamProgram()
+	record(c, p, refinterp.Check(p, budget), "streams")
 }
 
 func runGenerated(ill bool, phase string) func(c *mon.Case) {
@@ -256,7 +268,7 @@ func runTranscripts(c *mon.Case) {
 func Spec() *mon.Spec {
 	return &mon.Spec{
 		ID: "C15", Level: "exploration",
-		Rule: "case = one random program printed from a generated syntax tree (type-directed; own AST, the Elvish parser is not part of the oracle): variables/shadowing/closures, compounding and braced lists, list/map literals, (multi-)indexing and slices, small exact arithmetic and simple floats, comparison, if/while/for with else, break/continue/return (also raised inside functions), try/catch/else/finally, fail and rethrow, and/or/coalesce, functions with positional/rest arguments and options (arity and option errors), output and exception capture, tmp/with/defer, pipelines of value-stream builtins; programs of 16/40/70 forms, nesting <= 6, loops <= 5 iterations per level. Both sides run the program; value outputs (canonical repr, maps order-free), byte output and the category of the uncaught exception are compared. Programs on which the reference interpreter leaves the documented subset (\"unspecified\"), or whose result depends on pipeline scheduling, are discarded and counted. Phase illTyped breaks the static types in ~4% of the expressions. Phase transcripts runs every cumulative prefix of each section of pkg/eval/*_test.elvts that lies inside the subset. Non-trivial = compared program that executed >= 3 distinct construct kinds including a closure call, a try, a loop exited by break/continue/return or a pipeline; distinct by source text.",
+		Rule: "case = one random program printed from a generated syntax tree (type-directed; own AST, the Elvish parser is not part of the oracle): variables/shadowing/closures, compounding and braced lists, list/map literals, (multi-)indexing and slices, small exact arithmetic and simple floats, comparison, if/while/for with else, break/continue/return (also raised inside functions), try/catch/else/finally, fail and rethrow, and/or/coalesce, functions with positional/rest arguments and options (arity and option errors), output and exception capture, tmp/with/defer, pipelines of value-stream builtins; programs of 16/40/70 forms, nesting <= 6, loops <= 5 iterations per level. Both sides run the program; value outputs (canonical repr, maps order-free), byte output and the category of the uncaught exception are compared. Programs on which the reference interpreter leaves the documented subset (\"unspecified\"), or whose result depends on pipeline scheduling, are discarded and counted. Phase illTyped breaks the static types in ~4% of the expressions. Phase transcripts runs every cumulative prefix of each section of pkg/eval/*_test.elvts that lies inside the subset. Phase streams applies every covered value-stream and container builtin (each, range, take, drop, count, all, order, compact, keep-if, make-map, keys, has-key, has-value, assoc, dissoc, conj, indexing) to boundary-shaped inputs: lists of length 0/1/2/few, $nil/$true/$false as first, last or only element, runs of equal elements at the start/middle/end, both calling conventions (pipeline input and iterable argument), counts 0/1/len/len+1 for take and drop, empty and single-entry maps; the shapes actually received are counted by the reference interpreter (counters shape:*, stream:<builtin>:*, count-arg:*, mapshape:*) and have floors. Non-trivial = compared program (of phase streams: with at least one output) that executed >= 3 distinct construct kinds including a closure call, a try, a loop exited by break/continue/return or a pipeline; distinct by source text.",
 		Assumptions: []string{
 			"arguments of an ordinary command are evaluated left to right (the reference only says so for special commands)",
 			"`or`/`and`/`coalesce` output the last value when no value terminates them (documented by example for `and a b c` and `coalesce $nil $nil`)",
@@ -272,6 +284,7 @@ func Spec() *mon.Spec {
 			{Name: "wellTyped", Quick: 16000, Thorough: 240000, Run: runGenerated(false, "wellTyped")},
 			{Name: "illTyped", Quick: 6000, Thorough: 80000, Run: runGenerated(true, "illTyped")},
 			{Name: "transcripts", Quick: 45, Thorough: 45, Run: runTranscripts, Batch: 3},
+			{Name: "streams", Quick: 4000, Thorough: 60000, Run: runStreams},
 		},
 		Floors: map[string]int{
 			"compared": 6000, "distinct_nontrivial": 5000, "values_compared": 80000, "compared_ending_in_exception": 3000,
@@ -282,6 +295,23 @@ func Spec() *mon.Spec {
 			"p_arity-error": 500, "p_unknown-option-error": 400, "p_range-error": 1500, "p_nokey-error": 500, "p_div0-error": 350,
 			"p_compound-product": 500, "p_index-multi": 1200, "p_tmp": 800, "p_with": 1200, "p_defer": 800, "p_rest-lvalue": 800,
 			"p_set-element": 500, "p_exc-capture": 2500, "p_fail-rethrow": 300,
+			// boundary-shaped inputs of the stream and container builtins
+			"shape:empty": 1000, "shape:single": 1000, "shape:two": 2000, "shape:nil-first": 4000, "shape:nil-last": 2500,
+			"shape:only-nil": 2000, "shape:bool-elem": 2500, "shape:run-start": 5000, "shape:run-middle": 1500, "shape:run-end": 4000,
+			"shape:run-end-only": 900, "shape:all-equal": 3000, "shape:from-pipe": 5000, "shape:from-arg": 8000,
+			"count-arg:0": 300, "count-arg:1": 300, "count-arg:len": 300, "count-arg:len+1": 300, "mapshape:empty": 60, "mapshape:single": 80,
+			"stream:compact:nil-first": 200, "stream:compact:empty": 60, "stream:compact:pipe": 400, "stream:compact:arg": 400, "stream:compact:run-start": 500,
+			"stream:take:nil-first": 200, "stream:take:empty": 60, "stream:take:pipe": 400, "stream:take:arg": 200,
+			"stream:drop:nil-first": 200, "stream:drop:empty": 60, "stream:drop:pipe": 400, "stream:drop:arg": 200,
+			"stream:count:nil-first": 200, "stream:count:empty": 60, "stream:count:pipe": 400, "stream:count:arg": 200,
+			"stream:all:nil-first": 200, "stream:all:empty": 60, "stream:all:pipe": 400, "stream:all:arg": 400,
+			"stream:order:nil-first": 200, "stream:order:empty": 60, "stream:order:pipe": 400, "stream:order:arg": 400,
+			"stream:each:nil-first": 200, "stream:each:empty": 50, "stream:each:pipe": 400, "stream:each:arg": 400,
+			"stream:keep-if:nil-first": 200, "stream:keep-if:empty": 50, "stream:keep-if:pipe": 400, "stream:keep-if:arg": 400,
+			"stream:make-map:pipe": 250, "stream:make-map:arg": 250, "stream:make-map:empty": 30,
+			"stream:conj:nil-first": 150, "stream:conj:empty": 35, "stream:assoc:nil-first": 150, "stream:assoc:empty": 30,
+			"stream:has-key:nil-first": 150, "stream:has-key:empty": 35, "stream:has-value:nil-first": 150, "stream:has-value:empty": 35,
+			"stream:keys:empty-map": 10, "stream:has-key:empty-map": 10, "stream:dissoc:empty-map": 10, "stream:assoc:empty-map": 10,
 			"exc_fail": 250, "exc_flow": 200, "exc_arity": 600, "exc_range": 1000, "exc_type": 900, "exc_nokey": 200, "exc_div0": 80, "exc_unknown-option": 100,
 		},
 	}
